@@ -364,6 +364,7 @@ func (e *Enc) callContract(site ssa.Instruction, key string, fc *FuncContract, c
 		tv := res.(TupleV)
 		for i, n := range rnames {
 			ctx.vars[n] = TV{tv.E[i], sig.Results().At(i).Type()}
+			ctx.vars[fmt.Sprintf("result%d", i)] = ctx.vars[n]
 		}
 	}
 	for _, en := range fc.Ensures {
